@@ -441,3 +441,11 @@ Proof. intros k b q qA Hb HqA. pose proof (sqrt_pos qA) as HsA.
 
 End PhiFacts.
 End Reals.
+
+(* non-vacuity of the premises used above *)
+Example known_nonvacuous : known BNormal /\ known BClipped /\ ~ known BOther.
+Proof. unfold known. repeat split; auto. intros [H | H]; discriminate. Qed.
+Example qtilde_high_region_nonvacuous : exists q qA : R, (0 < qA)%R /\ (qA < q)%R /\ tstat KQtilde q qA = ((q - qA) / (2 * sqrt qA))%R.
+Proof. exists 4%R, 1%R. repeat split; try lra. apply tstat_qtilde_high; lra. Qed.
+Example qtilde_low_region_nonvacuous : exists q qA : R, (0 <= q)%R /\ (q <= qA)%R /\ tstat KQtilde q qA = (sqrt q - sqrt qA)%R.
+Proof. exists 1%R, 4%R. repeat split; try lra. apply tstat_qtilde_low; lra. Qed.
